@@ -200,6 +200,15 @@ impl Decoder {
         )
     }
 
+    /// The current field is complete without any further input
+    /// (an empty application name, an empty payload, nothing left to drop)
+    fn has_zero_length_step(&self) -> bool {
+        matches!(
+            self.state,
+            RecvState::AppName(0) | RecvState::Payload(0) | RecvState::Dropping(0)
+        )
+    }
+
     fn buffered_read(&mut self, mut input: Bytes, cap: usize) -> Option<(Bytes, Bytes)> {
         assert!(
             self.buffer.len() < cap || cap == 0,
@@ -243,7 +252,7 @@ impl http_datagram_codec::Decoder for Decoder {
         &mut self,
         mut data: Bytes,
     ) -> http_datagram_codec::DecodeResult<Self::Datagram> {
-        while !data.is_empty() {
+        while !data.is_empty() || self.has_zero_length_step() {
             match self.decode_chunk_once(data) {
                 (Some(d), tail) => return http_datagram_codec::DecodeResult::Complete(d, tail),
                 (None, tail) => data = tail,
